@@ -31,6 +31,9 @@ from .harness import CaseTimeout, Outcome, case_alarm, guarded
 OP_SECONDS = 30
 
 MINIMIZE = ["flops", "size", "write", "combo", "limit"]
+# None = the tree's own default objective (drawn with the initial tree)
+MINIMIZE_OR_DEFAULT = MINIMIZE + [None]
+INIT_HOW = ["path", "path", "ssa", "group_all:greedy", "group_all:optimal", "prefix"]
 
 # exceptions that are a (documented or evident) refusal of an impossible
 # request rather than a wrong answer
@@ -60,7 +63,7 @@ def _reconf_kw():
             "weight_pwr": st.integers(1, 3),
             "select": st.sampled_from(["max", "min", "random"]),
             "maxiter": st.integers(1, 5),
-            "minimize": st.sampled_from(MINIMIZE),
+            "minimize": st.sampled_from(MINIMIZE_OR_DEFAULT),
             "seed": st.integers(0, 99),
         }
     )
@@ -92,7 +95,7 @@ def op_strategy():
                         "num_restarts": st.integers(1, 2),
                         "subtree_maxiter": st.integers(1, 3),
                         "subtree_size": st.integers(2, 5),
-                        "minimize": st.sampled_from(MINIMIZE),
+                        "minimize": st.sampled_from(MINIMIZE_OR_DEFAULT),
                         "seed": st.integers(0, 99),
                     }
                 ),
@@ -107,7 +110,7 @@ def op_strategy():
                     {
                         "tsteps": st.integers(1, 3),
                         "numiter": st.integers(1, 3),
-                        "minimize": st.sampled_from(MINIMIZE),
+                        "minimize": st.sampled_from(MINIMIZE_OR_DEFAULT),
                         "seed": st.integers(0, 99),
                         "slice_mode": st.sampled_from(["basic", "reslice", "drift", 2]),
                         "tstart": st.sampled_from([2, 100.0]),
@@ -244,6 +247,22 @@ def op_strategy():
                         "print_contractions",
                         "has_preprocessing",
                         "describe",
+                        "get_eq_sliced",
+                        "get_shapes_sliced",
+                        "get_inputs_sliced",
+                        "contraction_width",
+                        "contraction_cost",
+                        "arithmetic_intensity",
+                        "contraction_scaling",
+                        "get_hypergraph",
+                        "compute_centralities",
+                        "flat_tree",
+                        "get_leaves_ordered",
+                        "get_score",
+                        "get_numpy_path",
+                        "get_path_surface",
+                        "contract_stats_force",
+                        "repr",
                     ]
                 ),
             }
@@ -270,12 +289,24 @@ def histories(draw, max_n=7, max_ops=10):
     )
     path = draw(gen.linear_paths(len(net["inputs"])))
     ops = draw(st.lists(op_strategy(), min_size=1, max_size=max_ops))
+    # how the initial tree is made: from my path (linear or SSA form), by a
+    # real finder (one all-tensor step resolved by ``optimize``), or from a
+    # prefix of the path completed automatically; with any of the incremental
+    # trackers switched on from the start, and with a default objective
+    init = {
+        "how": draw(st.sampled_from(INIT_HOW)),
+        "track": draw(st.lists(st.booleans(), min_size=4, max_size=4)),
+        "check": draw(st.booleans()),
+        "objective": draw(st.sampled_from([None, None, "flops", "size", "write", "combo"])),
+        "cut": draw(st.integers(0, 6)),
+    }
     return {
         "net": net,
         "path": path,
         "ops": ops,
         "aseed": draw(st.integers(0, 2**16)),
         "dtype": draw(st.sampled_from(["f", "c"])),
+        "init": init,
     }
 
 
@@ -519,11 +550,7 @@ class Machine:
 
     def run(self):
         ctg = self.ctg
-        ok, tree = guarded(
-            ctg.ContractionTree.from_path,
-            self.inputs, self.output, self.sizes,
-            path=[tuple(p) for p in self.spec["path"]],
-        )
+        ok, tree = guarded(self.initial_tree)
         if not ok:
             self.viol.append(f"from_path raised {tree}")
             return
@@ -593,6 +620,47 @@ class Machine:
                         )
             self.proj = saved
         return log
+
+    def initial_tree(self):
+        ctg = self.ctg
+        init = self.spec.get("init") or {}
+        how = init.get("how", "path")
+        path = [tuple(p) for p in self.spec["path"]]
+        kw = {}
+        tr = init.get("track") or [False] * 4
+        for flag, on in zip(("track_childless", "track_flops", "track_write", "track_size"), tr):
+            if on:
+                kw[flag] = True
+        if init.get("objective"):
+            kw["objective"] = init["objective"]
+        if init.get("check"):
+            kw["check"] = True
+        if self.n >= 2 and how.startswith("group_all"):
+            opt = how.split(":")[1]
+            if opt == "optimal" and self.n > 6:
+                opt = "greedy"
+            self.count(f"init:group_all:{opt}")
+            return ctg.ContractionTree.from_path(
+                self.inputs, self.output, self.sizes,
+                path=[tuple(range(self.n))], optimize=opt, **kw,
+            )
+        if how == "ssa":
+            self.count("init:ssa")
+            return ctg.ContractionTree.from_path(
+                self.inputs, self.output, self.sizes,
+                ssa_path=ref.linear_to_ssa_ref(path, self.n), **kw,
+            )
+        if how == "prefix" and len(path) >= 2:
+            cut = 1 + init.get("cut", 0) % (len(path) - 1)
+            self.count("init:prefix")
+            return ctg.ContractionTree.from_path(
+                self.inputs, self.output, self.sizes,
+                path=path[:cut], autocomplete=True, optimize="greedy", **kw,
+            )
+        self.count("init:path" + ("+tracked" if any(tr[1:]) else ""))
+        return ctg.ContractionTree.from_path(
+            self.inputs, self.output, self.sizes, path=path, **kw
+        )
 
     def _target_size(self, tree, f):
         return max(1, tree.max_size() // f)
@@ -744,6 +812,10 @@ class Machine:
                 ok, res = guarded(tree.combo_cost)
             elif which == "describe":
                 ok, res = guarded(tree.describe, "full")
+            elif which == "contract_stats_force":
+                ok, res = guarded(tree.contract_stats, force=True)
+            elif which == "repr":
+                ok, res = guarded(repr, tree)
             else:
                 ok, res = guarded(getattr(tree, which))
             if not ok:
